@@ -9,10 +9,11 @@ Worse(a, b) == IF Rank(b) > Rank(a) THEN b ELSE a
 
 Judge(e) ==
     IF ~e.ok THEN [kind |-> "property", clause |-> "C12_RendersValid"]
-    ELSE IF e.vals1 # << SumAdded(added', Vals[1]), SumAdded(added', Vals[2]) >>
-           \/ e.vals2 # << SumAdded(added2', Vals[1]), SumAdded(added2', Vals[2]) >>
+    \* observed values are twice the value (Equation.tla), the module's coefficients are in half units
+    ELSE IF << 2 * e.vals1[1], 2 * e.vals1[2] >> # << OSumAdded(added', Vals[1]), OSumAdded(added', Vals[2]) >>
+           \/ << 2 * e.vals2[1], 2 * e.vals2[2] >> # << OSumAdded(added2', Vals[1]), OSumAdded(added2', Vals[2]) >>
          THEN [kind |-> "property", clause |-> "C12_ValuePreserved"]
-    ELSE IF e.text1 # RenderText(terms') \/ e.text2 # RenderText(terms2')
+    ELSE IF e.text1 # ORenderText(terms') \/ e.text2 # ORenderText(terms2')
          THEN [kind |-> "drift", clause |-> "render_text"]
     ELSE Ok
 
